@@ -140,7 +140,8 @@ def check_c11(case, stats):
   else:
     stats.inconclusive['cond(M) >= 1e8'] += 1
   p = np.einsum('ij,jk,ik->i', V, M, V)
-  feasible0 = bool(((delta * (p0 - xi0)) <= 0).all())
+  # asserted only when every bound holds with a relative margin (a constraint tight to 1e-11 is decided by rounding)
+  feasible0 = bool(((delta * (p0 - xi0)) <= -1e-9 * xi0).all())
   if feasible0:
     if est.n_iter_ != 0 or np.abs(M - M0).max() > 1e-9 * np.abs(M0).max():
       raise Violation('C11/prior-feasible-not-returned/' + tag, 'all bounds hold under the prior but n_iter_=%d, max|M-M0|=%g' % (est.n_iter_, np.abs(M - M0).max()))
